@@ -93,6 +93,45 @@ func ruleC14Block(c *Ctx) {
 			}
 		})
 	}
+	// premises of the exception table: the queues are buffered as assumed
+	for _, q := range []struct {
+		fn, field string
+		min       int64
+		why       string
+	}{
+		{"(*backend/remote.Factory).Create", "closeChan", 3, "three senders (rpc client on transport error, SetMode(ERR), RemoveBackend->Close) and a receiver that leaves after the first receive"},
+		{"(*backend/remote.Factory).Create", "monitorChan", 1, "monitorPing sends once and returns; the controller's monitoring goroutine may already be gone"},
+		{"rpc.NewClient", "requests", 64, "request queue of the loop goroutine"},
+		{"rpc.NewClient", "responses", 64, "response queue of the loop goroutine (SetError must not block)"},
+		{"rpc.NewClient", "send", 64, "send queue of the writer goroutine"},
+	} {
+		fn := c.Anchor(rule, q.fn)
+		if fn == nil {
+			continue
+		}
+		R := NewRenderer(fn)
+		found := false
+		eachInstr(fn, func(in ssa.Instruction) {
+			st, ok := in.(*ssa.Store)
+			if !ok || !strings.HasSuffix(R.V(st.Addr), "."+q.field) {
+				return
+			}
+			mk, ok := strip(st.Val).(*ssa.MakeChan)
+			if !ok {
+				return
+			}
+			found = true
+			key := q.fn + " | capacity of " + q.field
+			if n, ok := intConst(mk.Size); ok && n >= q.min {
+				c.OK(rule, key, c.P.InstrPos(in), fmt.Sprintf("cap %d >= %d: %s", n, q.min, q.why), false)
+			} else {
+				c.Bad(rule, key, c.P.InstrPos(in), fmt.Sprintf("channel %s has capacity %s, needs >= %d: %s; a sender blocks forever while the controller lock is held", q.field, R.V(mk.Size), q.min, q.why), nil)
+			}
+		})
+		if !found {
+			c.Bad(rule, q.fn+" | capacity of "+q.field, "", "channel "+q.field+" is no longer created with a constant capacity here", nil)
+		}
+	}
 	c.OK(rule, "summary", "", fmt.Sprintf("%d send sites under a controller/server lock examined", n), true)
 	c.Floor(rule, 4)
 }
